@@ -217,11 +217,13 @@ func c03Drive(b *Bed, listener string, qs []*c03Query, wait time.Duration) {
 				}
 				continue
 			}
+			// every other connection (by the first query's id, so that a confirmation run of the same
+			// connection does the same) sends some frames with their last octets in a segment of their
+			// own; the others send all frames back to back
+			cutConn := len(part[0].Wire) > 1 && part[0].Wire[1]%2 == 1
 			for qi, q := range part {
 				q.Batch = part
-				if qi%3 == 1 && qi >= 20 {
-					// (the first twenty frames of a connection go out back to back and reach the listener as
-					// one or two large reads; from then on ...)
+				if cutConn && qi%3 == 1 {
 					// the last one or two octets of this frame travel in a segment of their own
 					f := dnsclient.Frame(q.Wire)
 					cut := len(f) - 1 - qi%2
